@@ -467,6 +467,11 @@ def run(repo, rep, tier):
 
     # R13.4 plumbing
     _plumbing(repo, rep)
+    # the fallback tag exists exactly when the element renders a tag: a
+    # use-macro element omits it (C09 owns the element details)
+    from . import c09 as _c09
+    L.borrow(repo, rep, "R13.3", "C09", _c09.element_details,
+             ("use-macro-omits-tag",))
     L.state_rule(repo, rep)
 
 
